@@ -886,10 +886,11 @@ impl Engine for BevyEngine {
             "the selector's last acted-on key is read through the verif-hooks accessor to know in which frame a key change took effect".into(),
         ]
     }
-    fn default_runs(&self, _property: &str, tier: Tier) -> u64 {
+    fn default_runs(&self, property: &str, tier: Tier) -> u64 {
+        let quick = if property == "C20" { 100_000 } else { 250_000 };
         match tier {
-            Tier::Quick => 300_000,
-            Tier::Thorough => 12_000_000,
+            Tier::Quick => quick,
+            Tier::Thorough => quick * 40,
         }
     }
     fn abstract_transitions_possible(&self, _property: &str) -> u64 {
